@@ -225,17 +225,19 @@ def run_c18(tier, seed):
                         bad("move:relocated-equal", history=done)
                     check(top, done + ["<moved>"], "moved")
                 elif op == "move_nested":
-                    try:
-                        c.b.move(_buffer=X.ContextCpu().new_buffer(16))
-                        bad("move:nested-accepted", history=done)
-                    except Exception:  # noqa  (refused: the statement does not name the error class)
-                        pass
+                    for tgt in (X.ContextCpu().new_buffer(16), c._buffer, None):  # another buffer, its own buffer, a fresh default buffer
+                        try:
+                            c.b.move(_buffer=tgt)
+                            bad("move:nested-accepted", history=done, target="other" if tgt is not None and tgt is not c._buffer else ("own" if tgt is not None else "default"))
+                        except Exception:  # noqa  (refused: the statement does not name the error class)
+                            pass
                 elif op == "move_with_ref":
-                    try:
-                        c.move(_buffer=X.ContextCpu().new_buffer(16))
-                        bad("move:with-refs-accepted", history=done)
-                    except Exception:  # noqa  (refused: the statement does not name the error class)
-                        pass
+                    for tgt in (X.ContextCpu().new_buffer(16), c._buffer, None):
+                        try:
+                            c.move(_buffer=tgt)
+                            bad("move:with-refs-accepted", history=done, target="other" if tgt is not None and tgt is not c._buffer else ("own" if tgt is not None else "default"))
+                        except Exception:  # noqa  (refused: the statement does not name the error class)
+                            pass
             except Exception as e:  # noqa
                 bad(f"raised:{op}:{type(e).__name__}", history=done, problem=str(e)[:200])
                 break
